@@ -286,7 +286,8 @@ pub enum ScanItem {
 
 struct StorageResolver<'a, B, OC, SC, L> {
     storage: &'a Storage<B, OC, SC, L>,
-    chain: Mutex<Vec<PlainRef>>,
+    // references currently being loaded, per thread (a resolver may be shared between threads)
+    chain: Mutex<Vec<(std::thread::ThreadId, PlainRef)>>,
 }
 impl<'a, B, OC, SC, L> StorageResolver<'a, B, OC, SC, L> {
     pub fn new(storage: &'a Storage<B, OC, SC, L>) -> Self {
@@ -324,13 +325,14 @@ where
         #[cfg(pdf_rs_pdf_verif)]
         crate::verif_hooks::yield_point("enter", key, std::any::type_name::<T>());
         
+        let thread = std::thread::current().id();
         {
             debug!("get {key:?} as {}", std::any::type_name::<T>());
             let mut chain = self.chain.lock().unwrap();
-            if chain.contains(&key) {
+            if chain.contains(&(thread, key)) {
                 bail!("Recursive reference");
             }
-            chain.push(key);
+            chain.push((thread, key));
         }
         let _defer = Defer(|| {
             #[cfg(pdf_rs_pdf_verif)]
@@ -338,7 +340,9 @@ where
                 crate::verif_hooks::yield_point("leave", key, std::any::type_name::<T>());
             }
             let mut chain = self.chain.lock().unwrap();
-            assert_eq!(chain.pop(), Some(key));
+            // the innermost load of *this* thread
+            let last = chain.iter().rposition(|e| e.0 == thread).map(|i| chain.remove(i).1);
+            assert_eq!(last, Some(key));
         });
         #[cfg(pdf_rs_pdf_verif)]
         crate::verif_hooks::yield_point("pushed", key, std::any::type_name::<T>());
